@@ -1,2 +1,89 @@
-(* Properties/C08.v — property theorems only. (stub) *)
+(* Properties/C08.v — Alignments returned by Global and Local are valid and score
+   what they claim.  Only statements; every proof is [exact <lemma>].
+   Model: Model/Align.v (global.go / local.go branch for branch, scores as Z);
+   specification objects: Spec/AlignSpec.v ([consumes], [score], [covers],
+   [nonpos_gaps], [local_answer_valid]).
+   Not covered here (harness only): "neither function modifies its inputs";
+   float64 scores are modelled as Z (exact for integer-valued matrices below 2^53). *)
+From Coq Require Import String.
 From Bio Require Import Base.
+From Bio.Model Require Import Align.
+From Bio.Spec Require Import AlignSpec.
+From Bio.Proofs Require Import AlignProofs AlignProofsB AlignProofsC.
+Open Scope Z_scope.
+
+(* Global: for ANY matrix that covers the sequences (asymmetric, any sign of the
+   gap scores and of gap-open), the steps consume exactly all of a and all of b and
+   the returned score is the documented score of the returned steps. *)
+Theorem C08_global_valid : forall m a b, covers m a b ->
+  exists al s, global m a b = Ok (al, s)
+    /\ consumes al = (length a, length b)
+    /\ score m a b al = Ok s.
+Proof. exact global_valid. Qed.
+Print Assumptions C08_global_valid.
+
+(* The same for anything that answers Get (used for the Levenshtein table). *)
+Theorem C08_global_valid_any_scorer : forall g a b, covers_g g a b ->
+  exists al s, global_g g a b = Ok (al, s)
+    /\ consumes al = (length a, length b)
+    /\ score_g g a b al = Ok s.
+Proof. exact global_valid_g. Qed.
+Print Assumptions C08_global_valid_any_scorer.
+
+(* Local, non-positive gap scores (per-character and gap-open): either
+   (nil, -1, -1, 0), or offsets inside the sequences, steps staying inside a and b
+   from the offsets, a positive score, equal to the score of the steps read from
+   the offsets. *)
+Theorem C08_local_valid : forall m a b, covers m a b -> nonpos_gaps m a b ->
+  exists r, local m a b = Ok r /\ local_answer_valid (get m) a b r.
+Proof. exact local_valid. Qed.
+Print Assumptions C08_local_valid.
+
+Theorem C08_local_valid_any_scorer : forall g a b, covers_g g a b -> nonpos_gaps_g g a b ->
+  exists r, local_g g a b = Ok r /\ local_answer_valid g a b r.
+Proof. exact local_valid_g. Qed.
+Print Assumptions C08_local_valid_any_scorer.
+
+(* Local returns no steps exactly when no pair of characters scores above 0. *)
+Theorem C08_local_none_iff : forall m a b, covers m a b -> nonpos_gaps m a b ->
+  exists al ai bi s, local m a b = Ok (al, ai, bi, s) /\
+    (al = [] <-> forall x y z, In x a -> In y b -> get m x y = Ok z -> z <= 0).
+Proof. exact local_none_iff. Qed.
+Print Assumptions C08_local_none_iff.
+
+(* Neither function panics (no missing pair is asked for, the "bad i" and
+   "bad score" branches are unreachable, the traceback fuel suffices), for any
+   sign of the gap scores. *)
+Theorem C08_no_panic : forall m a b, covers m a b ->
+  (exists r, global m a b = Ok r) /\ (exists r, local m a b = Ok r).
+Proof. exact no_panic. Qed.
+Print Assumptions C08_no_panic.
+
+(* Non-vacuity: an asymmetric matrix with a positive gap-open covers "abba"/"bab";
+   a matrix with non-positive gaps; Local's offsets with a gap inside the alignment;
+   a missing pair panics. *)
+Definition ex_key (x y : N) (s : Z) : (byte * byte) * Z := ((x, y), s).
+Definition ex_asym : matrix :=
+  [ ex_key 97 97 2; ex_key 97 98 (-1); ex_key 97 255 (-1);
+    ex_key 98 97 1; ex_key 98 98 1; ex_key 98 255 (-2);
+    ex_key 255 97 0; ex_key 255 98 (-1); ex_key 255 255 2 ].
+Definition ex_nonpos : matrix := simple_matrix 2 (-3) (-1) 0.
+
+Example C08_example :
+  covers ex_asym (bs "abba") (bs "bab")
+  /\ global ex_asym (bs "abba") (bs "bab") = Ok ([SIns; SDel; SIns; SDel; SMatch; SDel], 6)
+  /\ score ex_asym (bs "abba") (bs "bab") [SIns; SDel; SIns; SDel; SMatch; SDel] = Ok 6
+  /\ covers ex_nonpos (bs "baabaa") (bs "bbaaaab") /\ nonpos_gaps ex_nonpos (bs "baabaa") (bs "bbaaaab")
+  /\ local ex_nonpos (bs "baabaa") (bs "bbaaaab")
+       = Ok ([SMatch; SMatch; SMatch; SDel; SMatch; SMatch], 0, 1, 9)
+  /\ score ex_nonpos (skipn 0 (bs "baabaa")) (skipn 1 (bs "bbaaaab"))
+       [SMatch; SMatch; SMatch; SDel; SMatch; SMatch] = Ok 9
+  /\ local ex_nonpos (bs "aaa") (bs "bb") = Ok ([], -1, -1, 0)
+  /\ global (removelast ex_asym) (bs "a") (bs "b") = Panic.
+Proof.
+  split; [apply coversb_sound; vm_compute; reflexivity|].
+  split; [vm_compute; reflexivity|]. split; [vm_compute; reflexivity|].
+  split; [apply coversb_sound; vm_compute; reflexivity|].
+  split; [apply nonposb_sound; vm_compute; reflexivity|].
+  vm_compute. repeat split; reflexivity.
+Qed.
